@@ -5,8 +5,11 @@ ENGINES = [
     {"name": "E1 sched-trace", "path": "spec/TraceSched.tla + spec/SchedCore.tla + harness/e1.py",
      "serves_properties": ["C01", "C02", "C03", "C04", "C05", "C06", "C07", "C08", "C10"],
      "kind_free_text": "code -> spec: hook events of real runs are replayed by TLC, every property predicate evaluated on every observed state, every step compared with the step the spec computes"},
+    {"name": "E3 slot-ledger", "path": "spec/SlotLedger.tla + spec/MC_SlotLedgerU.tla (Apalache) + spec/MC_SlotLedgerR.tla (TLC) + harness/ledgerrun.py",
+     "serves_properties": ["C01", "C06"],
+     "kind_free_text": "one slot of one resource: inductive invariant for every capacity by Apalache; every operation sequence of a small instance enumerated by TLC and replayed into the real ResourceScenario / TaskScenario"},
     {"name": "E2 sched-universe", "path": "spec/Sched.tla + spec/MC_*.tla + harness/e2.py",
-     "serves_properties": ["C07"],
+     "serves_properties": ["C07", "C01", "C03", "C06", "C11"],
      "kind_free_text": "spec -> code: TLC runs the scheduler state machine over bounded universes with all properties as invariants and every terminal state is replayed through rendered text into the real code"},
     {"name": "E4 algebra", "path": "spec/Algebra.tla + harness/algrun.py + harness/props_alg.py",
      "serves_properties": ["C13", "C17"],
@@ -29,7 +32,7 @@ TRACE_NOTE = ("trusted: TLC, CPython datetime/zoneinfo, the harness renderer (ab
 
 CLAIMS = {
     "C01": {"engine": "E1 sched-trace", "design_ref": "DESIGN.md 5/C01",
-            "technique": "TLA+ trace validation (TLC) of hook-recorded ledger operations against SchedCore invariant P01",
+            "technique": "TLA+ trace validation (TLC) of hook-recorded ledger operations against SchedCore invariant P01; SlotLedger.tla: Apalache inductive invariant for any capacity + TLC-enumerated operation sequences replayed into the real ledger; MC_SubSlot universe traced (thorough)",
             "text": "TLC evaluates the no-double-booking invariant (portions per slot fit, used <= capacity) on every observed Book / OffsetMark / Finish state of hundreds (quick) to thousands (thorough) of generated sub-slot / team / ALAP projects and of the repository fixtures",
             "note": TRACE_NOTE},
     "C02": {"engine": "E1 sched-trace", "design_ref": "DESIGN.md 5/C02",
@@ -49,7 +52,7 @@ CLAIMS = {
             "text": "booked time per limit owner and period recomputed by the spec from the logged bookings over the whole (extended) horizon and compared with the declared limit",
             "note": TRACE_NOTE},
     "C06": {"engine": "E1 sched-trace", "design_ref": "DESIGN.md 5/C06",
-            "technique": "TLA+ trace validation: frame predicate P06 (order, tightness, milestone at bound) at every Done",
+            "technique": "TLA+ trace validation: frame predicate P06 (order, tightness, milestone at bound) at every Done; SlotLedger operation sequences replayed (precise end = slot start + base + kept); MC_SubSlot universe traced (thorough)",
             "text": "start <= end (< with work), start in earliest booked slot, end in closure of latest, milestones at their bound; ASAP and ALAP",
             "note": TRACE_NOTE},
     "C07": {"engine": "E1 sched-trace", "design_ref": "DESIGN.md 5/C07",
